@@ -185,7 +185,11 @@ impl AsCborValue for CoseKey {
         if !self.base_iv.is_empty() {
             map.push((BASE_IV.to_cbor_value()?, Value::Bytes(self.base_iv)));
         }
+        // Labels already emitted for the populated named fields also count as seen.
         let mut seen = BTreeSet::new();
+        for (label, _) in map.iter() {
+            seen.insert(Label::from_cbor_value(label.clone())?);
+        }
         for (label, value) in self.params {
             if seen.contains(&label) {
                 return Err(CoseError::DuplicateMapKey);
